@@ -18,6 +18,7 @@ def SlotFit (C : Codecs) (T : String → Prop) (env : Env) : Slot → Prop
   | .ints _ w _ f _ => ∃ xs, env.get f = some (.ns xs) ∧ ∀ x ∈ xs, x < 256 ^ w
   | .subs _ f typ _ _ => ∃ vs, env.get f = some (.ts vs) ∧ T typ ∧ ∀ v ∈ vs, ∃ bs v', C.enc typ v = .ok (bs, v')
   | .opt _ w _ f _ => ∃ x, env.get f = some (.n x) ∧ x < 256 ^ w
+  | .optInts _ w _ f _ _ => ∃ xs, env.get f = some (.ns xs) ∧ ∀ x ∈ xs, x < 256 ^ w
 
 theorem layoutBytes_nil (C : Codecs) (env : Env) : layoutBytes C env [] = [] := rfl
 theorem layoutBytes_cons (C : Codecs) (env : Env) (sl : Slot) (l : List Slot) :
